@@ -1,6 +1,7 @@
 //! unit: u02b
 //! properties: C02 C10
 //! note: RAA blockers (PeerState::actions_blocking_raa_monitor_updates): registering a blocker on a channel appends it to that channel's list and never drops a blocker already registered (for this or any other channel) -- the monitor update of the downstream peer's next revoke_and_ack stays held until every upstream preimage it depends on is durably persisted
+//! trusted: R15 (deep slice): from_channel_manager_data: the body of `for prev_hop in prev_htlcs` inside the filter_map closure that collects pending_claims_to_replay, verbatim as a function of one previous hop and the variables in scope at that point (the loop's `continue` and the closure's `fail_read = true; return None` are returned as the values Skip / FailRead); channel_monitors is a stub map answering from a ghost map, a monitor answers its ids and the number of its claimable balances
 //! trusted: R15 (deep slice): ChannelManager::process_pending_monitor_events: the body of the MonitorEvent::HTLCEvent arm (the logger construction is dropped), verbatim as a function of the event and the channel it came from; R5: the manager is a stub whose claim_funds_internal / fail_htlc_backwards_internal record their arguments in a ghost log (`&self` written `&mut self`); HTLCSource::failure_type and SentHTLCId::from_source are uninterpreted functions of the source
 //! assume: htlc_value_satoshis is at most the 21e6 BTC supply (the source multiplies by 1000 unchecked)
 //! trusted: R15 (deep slices): the statement(s) that register an RAA blocker in (a) internal_update_fulfill_htlc (body of `for prev_hop in res.0.previous_hop_data()`), (b) claim_mpp_part (live-channel arm), (c) claim_mpp_part (closed-channel arm, `.or_default()`), (d) from_channel_manager_data (re-registering the blockers of queued EmitEventOptionAndFreeOtherChannel actions on reload), each verbatim as a function of the blocker map; everything around them (the channel state machine call, the preimage monitor update, the completion actions) is dropped and not claimed here
@@ -270,6 +271,44 @@ impl Manager {
     None, false, counterparty_node_id,
 //@end
 }
+// ---- restart: a preimage a downstream monitor holds is replayed against the monitor of the channel the HTLC came in on ----------
+pub struct PrevHop { pub channel_id: ChannelId, pub counterparty_node_id: Option<PublicKey>, pub htlc_id: u64 }
+pub struct HTLCInCommitment { pub amount_msat: u64 }
+pub struct Balance {}
+pub struct Mon { pub id: ChannelId, pub cp: PublicKey, pub funding: OutPoint, pub n_balances: nat }
+impl Mon {
+    #[verifier::external_body] pub fn get_claimable_balances(&self) -> (r: Vec<Balance>) ensures r@.len() == self.n_balances { unimplemented!() }
+    #[verifier::external_body] pub fn get_counterparty_node_id(&self) -> (r: PublicKey) ensures r == self.cp { unimplemented!() }
+    #[verifier::external_body] pub fn get_funding_txo(&self) -> (r: OutPoint) ensures r == self.funding { unimplemented!() }
+    #[verifier::external_body] pub fn channel_id(&self) -> (r: ChannelId) ensures r == self.id { unimplemented!() }
+}
+pub struct MonMap { pub m: Ghost<Map<ChannelId, Mon>> }
+impl MonMap { #[verifier::external_body] pub fn get(&self, k: &ChannelId) -> (r: Option<&Mon>) ensures r is Some <==> self.m@.contains_key(*k), r is Some ==> *r->Some_0 == self.m@[*k] { unimplemented!() } }
+pub struct ReadArgs { pub channel_monitors: MonMap }
+pub enum Replay { Skip, FailRead, Claim((HTLCSource, PaymentPreimage, u64, bool, PublicKey, OutPoint, ChannelId, Option<u128>)) }
+//@extract lightning/src/ln/channelmanager.rs :: impl ChannelManager :: fn from_channel_manager_data
+//@slice R15
+    for prev_hop in prev_htlcs { let inbound_edge_monitor = match args.channel_monitors.get($k:seq) { Some(monitor) => monitor, None => continue, }; if $empty:cond { continue; } if $nocp:cond { fail_read = true; return None; } return Some(( $t:seq )); } None
+//@with
+    fn replay_of_a_preimage_the_downstream_monitor_holds(args: &ReadArgs, prev_hop: &PrevHop, channel_id: &ChannelId, monitor: &Mon, htlc_source: HTLCSource, payment_preimage: PaymentPreimage, htlc: &HTLCInCommitment, is_channel_closed: bool, user_channel_id_opt: Option<u128>) -> Replay {
+        // `continue` (next previous hop) is Replay::Skip, `fail_read = true; return None` is Replay::FailRead
+        let inbound_edge_monitor = match args.channel_monitors.get($k) { Some(monitor) => monitor, None => { return Replay::Skip; } };
+        if $empty { return Replay::Skip; }
+        if $nocp { return Replay::FailRead; }
+        Replay::Claim(( $t ))
+    }
+//@ret r
+//@ensures P C02,C10 on-restart-a-forwarded-htlcs-preimage-is-replayed-upstream-unless-the-monitor-of-the-channel-it-came-in-on-is-gone-or-has-nothing-left-to-claim
+    // the decision looks at the monitor of the INBOUND edge (the channel the HTLC came in on), not at the downstream one being walked
+    (!args.channel_monitors.m@.contains_key(prev_hop.channel_id) || args.channel_monitors.m@[prev_hop.channel_id].n_balances == 0) ==> r is Skip,
+    (args.channel_monitors.m@.contains_key(prev_hop.channel_id) && args.channel_monitors.m@[prev_hop.channel_id].n_balances > 0) ==> (
+        if prev_hop.counterparty_node_id is None { r is FailRead }
+        else { r == Replay::Claim((htlc_source, payment_preimage, htlc.amount_msat, is_channel_closed, monitor.cp, monitor.funding, monitor.id, user_channel_id_opt)) }),
+//@mutant inbound_edge_looked_up_under_the_downstream_channel
+    match args.channel_monitors.get(&prev_hop.channel_id) {
+//@with
+    match args.channel_monitors.get(channel_id) {
+//@end
 }
 }
 fn main() {}
